@@ -54,6 +54,11 @@ func randPosForPrint(r *rng, length int) string {
 	if r.coin(15) {
 		toks = append(toks, fmt.Sprintf("r%d~%d", -5, r.intn(4)))
 	}
+	if length >= 0 && r.coin(15) {
+		// "print everything" on a finite sequence: an end at or just below MaxInt (the way to print
+		// all digits in v1/v2, which have no Fwrite); label-width arithmetic must not overflow
+		toks = append(toks, fmt.Sprintf("r%d~%d", r.pick([]int{0, 3, 60}), maxInt-r.pick([]int{0, 0, 1, 5, 9, 48, 49, 50, 99, 100, 1000})))
+	}
 	return strings.Join(toks, ",")
 }
 
